@@ -3,8 +3,10 @@
 package c10
 
 import (
+	"bytes"
 	"fmt"
 	"runtime"
+	"strings"
 	"sync"
 	"testing"
 
@@ -23,7 +25,8 @@ import (
 // race-detector report in the process output is turned into a violation by the driver.
 
 type raceOp struct {
-	Op     string   `json:"op"` // decode | mic | crypt | lookup | register | band | yield
+	Op     string   `json:"op"`             // decode | mic | crypt | lookup | register | band | yield | dectype | text
+	Type   string   `json:"type,omitempty"` // dectype: a gen.Decoders name; text: a textDecoders name (the text is in Frame)
 	Frame  evid.Hex `json:"frame,omitempty"`
 	Key    evid.Hex `json:"key,omitempty"`
 	CID    byte     `json:"cid,omitempty"`
@@ -180,6 +183,30 @@ func runList(l []raceOp) []string {
 			}
 			enc, _ := p.MarshalBinary()
 			out = append(out, fmt.Sprintf("shared-frame %v %x", err, enc))
+		case "dectype":
+			d := gen.DecoderByName(o.Type)
+			if d == nil {
+				continue
+			}
+			v := d.New()
+			err := d.Decode(v, o.Uplink, append([]byte{}, o.Frame...))
+			if err != nil {
+				out = append(out, fmt.Sprintf("dectype %s %v", o.Type, err))
+				continue
+			}
+			out = append(out, fmt.Sprintf("dectype %s %s", o.Type, observe(v)))
+		case "text":
+			for _, d := range textDecoders {
+				if d.Name == o.Type {
+					v := d.New()
+					err := decodeText("text", v, string(o.Frame))
+					if err != nil {
+						out = append(out, fmt.Sprintf("text %s %v", o.Type, err))
+						continue
+					}
+					out = append(out, fmt.Sprintf("text %s %s", o.Type, observe(v)))
+				}
+			}
 		case "netid":
 			n := lorawan.NetID{o.Key[0], o.Key[1], o.Key[2]}
 			a := lorawan.DevAddr{o.Key[3], o.Key[4], o.Key[5], o.Key[6]}
@@ -235,7 +262,11 @@ func checkRace(c raceCase) evid.Outcome {
 		alone := runList(l)
 		for i := range alone {
 			if i >= len(results[g]) || alone[i] != results[g][i] {
-				return evid.Fail("goroutine %d of %d: result %d differs between the concurrent run and the same op list run alone:\n concurrent: %v\n alone:      %v", g, len(c.Lists), i, results[g], alone)
+				con := "(missing)"
+				if i < len(results[g]) {
+					con = results[g][i]
+				}
+				return evid.Fail("goroutine %d of %d: result %d of %d differs between the concurrent run and the same op list run alone:\n concurrent: %s\n alone:      %s", g, len(c.Lists), i, len(alone), con, alone[i])
 			}
 		}
 		for _, o := range l {
@@ -279,19 +310,90 @@ func firstUse() raceCase {
 	}
 	app := ref.Frame{MType: ref.MTConfUp, DevAddr: 0x26011f2a, FCnt: 70000, FPort: 7, FRM: []byte{1, 2, 3, 4, 5, 6, 7, 8, 9, 10, 11, 12, 13, 14, 15, 16, 17}, FOpts: []byte{0x02}}
 	l = append(l, raceOp{Op: "mic", Frame: app.Encode(), Key: key}, raceOp{Op: "crypt", Frame: app.Encode(), Key: key}, raceOp{Op: "netid", Key: key})
-	c := raceCase{}
-	for g := 0; g < 8; g++ {
-		c.Lists = append(c.Lists, l)
+	// every MAC command of the specification, alone and inside a frame (FOpts and port-0 payload), payload bytes 0xb7
+	for i := range ref.Specs {
+		s := &ref.Specs[i]
+		cmd := append([]byte{s.CID}, bytes.Repeat([]byte{0xb7}, s.Len)...)
+		l = append(l, raceOp{Op: "dectype", Type: "lorawan.MACCommand", Uplink: s.Uplink, Frame: cmd})
+		mt := byte(ref.MTUnconfDown)
+		if s.Uplink {
+			mt = ref.MTUnconfUp
+		}
+		if len(cmd) <= 15 {
+			f := ref.Frame{MType: mt, DevAddr: 0x01020304, FCnt: uint32(i), FPort: -1, FOpts: cmd}
+			l = append(l, raceOp{Op: "decode", Frame: f.Encode()})
+		}
+		g := ref.Frame{MType: mt + 2, DevAddr: 0x01020304, FCnt: uint32(i), FPort: 0, FRM: cmd}
+		l = append(l, raceOp{Op: "decode", Frame: g.Encode()})
 	}
-	return c
+	// every decoder type on inputs of 0..30 bytes (without asking which lengths it accepts: that would be its first use)
+	for i := range gen.Decoders {
+		for n := 0; n <= 30; n++ {
+			for _, fill := range []byte{0x00, 0xb7} {
+				b := bytes.Repeat([]byte{fill}, n)
+				if n > 15 {
+					b[15] = byte(n & 1) // CFList type
+				}
+				l = append(l, raceOp{Op: "dectype", Type: gen.Decoders[i].Name, Uplink: n%2 == 0, Frame: b})
+			}
+		}
+	}
+	// the text doors
+	for _, d := range textDecoders {
+		txt := strings.Repeat("9a", d.Len)
+		if d.Len == 0 {
+			txt = "QAQDAgGAAAAB"
+		}
+		l = append(l, raceOp{Op: "text", Type: d.Name, Frame: evid.Hex(txt)}, raceOp{Op: "text", Type: d.Name, Frame: evid.Hex("0x" + strings.ToUpper(txt))})
+	}
+	return raceCase{Lists: [][]raceOp{l}}
+}
+
+// checkFirstUse: one operation at a time, each by 8 goroutines released together that do nothing else between the
+// release and the call, so that no two of them are ordered by anything but the library's own synchronisation: state
+// that an operation sets up on first use is then written by one goroutine and read or written by another without a
+// happens-before edge, which the race detector reports whatever the timing. Results are compared with the list run alone.
+func checkFirstUse(c raceCase) evid.Outcome {
+	if len(c.Lists) != 1 {
+		return evid.Outcome{Skip: true}
+	}
+	lorawan.VerifResetMACPayloadRegistry()
+	const n = 8
+	l := c.Lists[0]
+	results := make([][n]string, len(l))
+	for i := range l {
+		one := l[i : i+1]
+		var wg sync.WaitGroup
+		start := make(chan struct{})
+		for g := 0; g < n; g++ {
+			wg.Add(1)
+			go func(g int) {
+				defer wg.Done()
+				<-start
+				results[i][g] = strings.Join(runList(one), "\n")
+			}(g)
+		}
+		close(start)
+		wg.Wait()
+	}
+	lorawan.VerifResetMACPayloadRegistry()
+	for i := range l {
+		alone := strings.Join(runList(l[i:i+1]), "\n")
+		for g := 0; g < n; g++ {
+			if results[i][g] != alone {
+				return evid.Fail("operation %d of the first-use list (%s %s %x), done by %d goroutines at once as the first use in the process: goroutine %d got a result that differs from the same operation done alone afterwards:\n concurrent: %s\n alone:      %s", i, l[i].Op, l[i].Type, []byte(l[i].Frame), n, g, results[i][g], alone)
+			}
+		}
+	}
+	return evid.Outcome{NonTrivial: true, Class: fmt.Sprintf("operations=%d", len(l))}
 }
 
 func TestRace(t *testing.T) {
 	r := evid.Begin(t, "C10")
 	defer r.Finish()
 	evid.RunManual(r, t, "race-first-use", "exhaustive",
-		"-race build, first thing in the process: 8 goroutines released together run the SAME fixed list - decode data frames (all four message types) whose FOpts / port-0 payload carry 128 different proprietary CIDs nobody registers, GetMACPayloadAndSize for 32 CIDs, GetConfig for every band, set / validate a MIC, encrypt / decrypt, NetID algebra with one key - so that anything the library sets up lazily or notes on first sight is met by all of them at once. Oracle as in race-oplists (results equal the list run alone; race-detector reports become violations).",
-		true, checkRace, func(m *evid.Manual[raceCase]) {
+		"-race build, first thing in the process: a fixed list of operations, each done by 8 goroutines released together that do nothing else before the call (so nothing but the library's own synchronisation orders them, and the detector reports unsynchronised first-use set-up whatever the timing) - every MAC command of the specification decoded alone and inside frames (FOpts, port-0 payload), every decoder type on 0..30 byte inputs, the text doors of the identifiers / DLSettings / PHYPayload, data frames (all four message types) whose FOpts / port-0 payload carry 128 different proprietary CIDs nobody registers, GetMACPayloadAndSize for 32 CIDs, GetConfig for every band, set / validate a MIC, encrypt / decrypt, NetID algebra with one key - so that anything the library sets up lazily or notes on first sight is met by all of them at once. Oracle: every goroutine's result equals the operation done alone afterwards; race-detector reports become violations.",
+		true, checkFirstUse, func(m *evid.Manual[raceCase]) {
 			if r.Shard == 0 {
 				m.Eval(firstUse())
 			}
